@@ -229,7 +229,7 @@ def run_twin(case, compare_sections=('params', 'rg', 'flags', 'grads'), probe_fo
             ref_dead = True
             break
         obs_s, exc_s = run(S, side_hook if mids else None)
-        if k in ('train_step', 'backward_only', 'forward_only', 'opt_step', 'perturb_arch', 'perturb_net'):
+        if k in ('train_step', 'backward_only', 'forward_only', 'opt_step', 'perturb_arch', 'perturb_net', 'load_ckpt'):
             state_op_seen = True
         if obs_r.get('aborted'):
             bump('fault_abort_forward')
